@@ -499,6 +499,10 @@ impl Harness {
                 }
             }
         }
+        if !matches!(op, Op::Send { .. } | Op::Poll { .. } | Op::StoreOffset { .. } | Op::GetOffset { .. } | Op::DeleteOffset { .. } | Op::Tick(_) | Op::Flush { .. } | Op::Settle) {
+            // anything else may change memberships or partitions: a member's current partition is unknown again
+            self.model.member_current.clear();
+        }
         match op {
             Op::Send { c, stream, topic, part, msgs } => self.op_send(*c, stream, topic, part, msgs).await,
             Op::SendThenRestart { stream, topic, partition, msgs, kind } => self.op_send_then_restart(stream, topic, *partition, msgs, *kind).await,
@@ -1060,6 +1064,12 @@ impl Harness {
         if !self.session_ready(c) {
             return;
         }
+        if matches!(who, Who::Group(_)) && partition.is_none() {
+            // the member's cursor moves whether or not the response arrives; re-learnt from the response below
+            if let Some(id) = self.model.sessions[c].client_id {
+                self.model.member_current.retain(|k, _| k.3 != id);
+            }
+        }
         let consumer = match who {
             Who::Consumer(r) => Consumer::new(r.to_identifier()),
             Who::Group(r) => Consumer::group(r.to_identifier()),
@@ -1289,6 +1299,9 @@ impl Harness {
         if !self.session_ready(c) {
             return;
         }
+        if self.group_offset_request_unresolvable(c, stream, topic, partition, who) {
+            return;
+        }
         let consumer = match who {
             Who::Consumer(r) => Consumer::new(r.to_identifier()),
             Who::Group(r) => Consumer::group(r.to_identifier()),
@@ -1302,7 +1315,7 @@ impl Harness {
         if !self.perm_gate("store_consumer_offset", result.is_ok(), result.as_ref().err()) {
             return;
         }
-        let Some((sid, tid, p, is_group, key)) = self.resolve_offset_target(stream, topic, partition, who) else {
+        let Some((sid, tid, p, is_group, key)) = self.resolve_offset_target(c, stream, topic, partition, who) else {
             if ok(&result) {
                 self.violate("C07", "store_unknown_target", "accepted", format!("store offset for unknown target {stream:?}/{topic:?}/{partition:?} {who:?} accepted"));
             }
@@ -1337,7 +1350,7 @@ impl Harness {
     }
 
     /// (stream, topic, partition, is_group, key) of an offset operation with an explicit or defaulted partition.
-    fn resolve_offset_target(&self, stream: &IdRef, topic: &IdRef, partition: Option<u32>, who: &Who) -> Option<(u32, u32, u32, bool, u32)> {
+    fn resolve_offset_target(&self, c: usize, stream: &IdRef, topic: &IdRef, partition: Option<u32>, who: &Who) -> Option<(u32, u32, u32, bool, u32)> {
         let (sid, tid) = self.model.topic_ids(stream, topic)?;
         let t = &self.model.streams[&sid].topics[&tid];
         match who {
@@ -1347,14 +1360,34 @@ impl Harness {
             }
             Who::Group(g) => {
                 let gid = Model::group_id(t, g)?;
-                let p = partition?;
+                let p = match partition {
+                    Some(p) => p,
+                    // a member's request without a partition id means the partition its last poll was served from
+                    None => *self.model.member_current.get(&(sid, tid, gid, self.model.sessions.get(c)?.client_id?))?,
+                };
                 t.partitions.contains_key(&p).then_some((sid, tid, p, true, gid))
             }
         }
     }
 
+    /// An offset request as a group without a partition id is only sent when the harness knows which partition
+    /// it refers to (the sender is a member whose last such poll was observed and nothing has rebalanced since).
+    fn group_offset_request_unresolvable(&mut self, c: usize, stream: &IdRef, topic: &IdRef, partition: Option<u32>, who: &Who) -> bool {
+        if matches!(who, Who::Group(_)) && partition.is_none() {
+            if self.resolve_offset_target(c, stream, topic, partition, who).is_none() {
+                self.stats.probe("group_offset_request_without_partition_skipped");
+                return true;
+            }
+            self.stats.probe("group_offset_request_without_partition");
+        }
+        false
+    }
+
     async fn op_get_offset(&mut self, c: usize, stream: &IdRef, topic: &IdRef, partition: Option<u32>, who: &Who) {
         if !self.session_ready(c) {
+            return;
+        }
+        if self.group_offset_request_unresolvable(c, stream, topic, partition, who) {
             return;
         }
         let consumer = match who {
@@ -1370,7 +1403,7 @@ impl Harness {
         if !self.perm_gate_found("get_consumer_offset", matches!(result, Ok(Some(_))), result.is_ok(), result.as_ref().err()) {
             return;
         }
-        let Some((sid, tid, p, is_group, key)) = self.resolve_offset_target(stream, topic, partition, who) else {
+        let Some((sid, tid, p, is_group, key)) = self.resolve_offset_target(c, stream, topic, partition, who) else {
             if let Ok(Some(info)) = &result {
                 if partition.is_some() || matches!(who, Who::Consumer(_)) {
                     self.violate("C07", "get_unknown_target", "value", format!("get offset for unknown target returned {info:?}"));
@@ -1419,6 +1452,9 @@ impl Harness {
         if !self.session_ready(c) {
             return;
         }
+        if self.group_offset_request_unresolvable(c, stream, topic, partition, who) {
+            return;
+        }
         let consumer = match who {
             Who::Consumer(r) => Consumer::new(r.to_identifier()),
             Who::Group(r) => Consumer::group(r.to_identifier()),
@@ -1432,7 +1468,7 @@ impl Harness {
         if !self.perm_gate("delete_consumer_offset", result.is_ok(), result.as_ref().err()) {
             return;
         }
-        let Some((sid, tid, p, is_group, key)) = self.resolve_offset_target(stream, topic, partition, who) else {
+        let Some((sid, tid, p, is_group, key)) = self.resolve_offset_target(c, stream, topic, partition, who) else {
             return;
         };
         let pm = self.pm(sid, tid, p);
